@@ -126,11 +126,14 @@ def run_case(ctx, rng, index, casedir):
     rows.append(("not_in_gaf", "H1", "5", contigs[0]))
     rng.shuffle(rows)
     tsv = os.path.join(casedir, "haplotag.tsv")
-    with open(tsv, "w") as f:
-        if rng.random() < 0.8:
-            f.write("#readname\thaplotype\tphaseset\tchromosome\n")
-        for r in rows:
-            f.write("\t".join(r) + "\n")
+    nl = "\r\n" if rng.random() < 0.1 else "\n"
+    with open(tsv, "w", newline="") as f:
+        body = (["#readname\thaplotype\tphaseset\tchromosome"] if rng.random() < 0.8 else []) + ["\t".join(r) for r in rows]
+        if rng.random() < 0.15:
+            f.write(nl.join(body))  # the last row is not terminated
+            sit["tsv_without_final_newline"] += 1
+        else:
+            f.write(nl.join(body) + nl)
     out = os.path.join(casedir, "phased.gaf")
     o = run_cli(["phase", gaf, tsv, "-o", out])
     sigs = []
